@@ -442,68 +442,36 @@ func c13(c *an.Ctx) {
 				}
 			}
 		}
-		okLen := false
-		for _, e := range an.Exits(bs, false) {
-			if !isConstNil(an.ResultAt(e.(*ssa.Return), 1)) && strings.Contains(strings.Join(an.GuardStrings(e.Block()), " "), "(len("+bs.Params[2].Name()+") != len(") {
-				okLen = true
+		{
+			lenBlk := an.NewBlocker()
+			nLen := 0
+			for _, t := range an.EqTests(bs, func(x, y ssa.Value) bool {
+				cx, okx := x.(*ssa.Call)
+				cy, oky := y.(*ssa.Call)
+				if !okx || !oky {
+					return false
+				}
+				bx, okx := cx.Call.Value.(*ssa.Builtin)
+				by, oky := cy.Call.Value.(*ssa.Builtin)
+				return okx && oky && bx.Name() == "len" && by.Name() == "len" && cx.Call.Args[0] == ssa.Value(bs.Params[2])
+			}) {
+				lenBlk.AddEdge(t.If.Block(), t.Eq)
+				nLen++
 			}
-		}
-		if !okLen {
-			o.Fail(p.Pos(bs.Pos()), "BuildStruct no longer rejects a row whose column count differs from the table's")
-		}
-		// parseBinlogRow: binlogRow[j], scanners[i], Columns[i]; (i,j) from one range over columnMap.source; count test first
-		pb := c.NeedFunc("livesql", "parseBinlogRow")
-		var iIdx ssa.Value
-		okJ := false
-		an.Instrs(pb, func(i ssa.Instruction) {
-			ia, ok := i.(*ssa.IndexAddr)
-			if !ok {
-				return
-			}
-			s := an.Expr(ia.X)
-			switch {
-			case s == pb.Params[1].Name():
-				o.Site(i)
-				// index must be the element of columnMap.source at the loop position
-				if ld, ok := ia.Index.(*ssa.UnOp); ok {
-					if src, ok := ld.X.(*ssa.IndexAddr); ok && strings.HasSuffix(an.Expr(src.X), ".source") && an.IsRangeIndex(src.Index) {
-						okJ = true
-						iIdx = src.Index
+			bad := nLen == 0
+			if !bad {
+				r := an.Reach(bs, nil, lenBlk)
+				an.Instrs(bs, func(i ssa.Instruction) {
+					if ia, ok := i.(*ssa.IndexAddr); ok && ia.X == ssa.Value(bs.Params[2]) && r[i] {
+						bad = true
 					}
-				}
-				if !okJ {
-					o.FailAt(i, "the binlog row is indexed by %s, not by the source position recorded for this column", an.Expr(ia.Index))
-				}
-				okG := false
-				for _, g := range an.GuardStrings(i.Block()) {
-					if strings.HasSuffix(g, " != -1)") {
-						okG = true
-					}
-				}
-				if !okG {
-					o.FailAt(i, "the binlog row is read for a column whose source position is -1 (column missing in the table)")
-				}
-			case strings.Contains(s, "canners") || strings.HasSuffix(s, ".Columns"):
-				o.Site(i)
-				if !an.IsRangeIndex(ia.Index) {
-					o.FailAt(i, "parseBinlogRow indexes %s with %s, not with the struct column position", s, an.Expr(ia.Index))
-				} else if iIdx != nil && ia.Index != iIdx {
-					o.FailAt(i, "parseBinlogRow pairs %s with a different loop than the source map", s)
-				}
+				})
 			}
-		})
-		if !okJ {
-			o.Fail(p.Pos(pb.Pos()), "parseBinlogRow does not read binlogRow[columnMap.source[i]]")
-		}
-		okCnt := false
-		for _, e := range an.Exits(pb, false) {
-			if !isConstNil(an.ResultAt(e.(*ssa.Return), 1)) && strings.Contains(strings.Join(an.GuardStrings(e.Block()), " "), ".expectedColumns)") {
-				okCnt = true
+			if bad {
+				o.Fail(p.Pos(bs.Pos()), "BuildStruct no longer rejects a row whose column count differs from the table's")
 			}
 		}
-		if !okCnt {
-			o.Fail(p.Pos(pb.Pos()), "parseBinlogRow no longer rejects rows with an unexpected column count (after a schema change values would be assigned to the wrong columns)")
-		}
+		ruleParseBinlogRow(c, o)
 	})
 
 	c.Check("R-PAIR", "MakeTester collects column and value in lock step; Tester.Test compares per column with driverValuesEqual; byte slices compared by content", 4, func(o *an.O) {
@@ -565,4 +533,85 @@ func c13(c *an.Ctx) {
 			o.Fail(p.Pos(de.Pos()), "driverValuesEqual no longer compares []byte values by content (slices are not comparable with ==: a binary column would never match its own row)")
 		}
 	})
+}
+
+// ruleParseBinlogRow (shared by C13 and C07): binlogRow[j], scanners[i],
+// Columns[i] with (i, j) from one loop over columnMap.source, and the row is
+// read only behind the exact column-count test (a mismatch must surface as a
+// decode error so that the table's live queries are invalidated).
+func ruleParseBinlogRow(c *an.Ctx, o *an.O) {
+	p := c.P
+	// parseBinlogRow: binlogRow[j], scanners[i], Columns[i]; (i,j) from one range over columnMap.source; count test first
+	pb := c.NeedFunc("livesql", "parseBinlogRow")
+	var iIdx ssa.Value
+	okJ := false
+	an.Instrs(pb, func(i ssa.Instruction) {
+		ia, ok := i.(*ssa.IndexAddr)
+		if !ok {
+			return
+		}
+		s := an.Expr(ia.X)
+		switch {
+		case s == pb.Params[1].Name():
+			o.Site(i)
+			// index must be the element of columnMap.source at the loop position
+			if ld, ok := ia.Index.(*ssa.UnOp); ok {
+				if src, ok := ld.X.(*ssa.IndexAddr); ok && strings.HasSuffix(an.Expr(src.X), ".source") && an.IsRangeIndex(src.Index) {
+					okJ = true
+					iIdx = src.Index
+				}
+			}
+			if !okJ {
+				o.FailAt(i, "the binlog row is indexed by %s, not by the source position recorded for this column", an.Expr(ia.Index))
+			}
+			okG := false
+			for _, g := range an.GuardStrings(i.Block()) {
+				if strings.HasSuffix(g, " != -1)") {
+					okG = true
+				}
+			}
+			if !okG {
+				o.FailAt(i, "the binlog row is read for a column whose source position is -1 (column missing in the table)")
+			}
+		case strings.Contains(s, "canners") || strings.HasSuffix(s, ".Columns"):
+			o.Site(i)
+			if !an.IsRangeIndex(ia.Index) {
+				o.FailAt(i, "parseBinlogRow indexes %s with %s, not with the struct column position", s, an.Expr(ia.Index))
+			} else if iIdx != nil && ia.Index != iIdx {
+				o.FailAt(i, "parseBinlogRow pairs %s with a different loop than the source map", s)
+			}
+		}
+	})
+	if !okJ {
+		o.Fail(p.Pos(pb.Pos()), "parseBinlogRow does not read binlogRow[columnMap.source[i]]")
+	}
+	// the row is only read when it has exactly the expected number of columns: with
+	// the "equal" edges of the count test blocked no read of the row is reachable
+	isLenOf := func(v, of ssa.Value) bool {
+		call, ok := v.(*ssa.Call)
+		if !ok {
+			return false
+		}
+		b, ok := call.Call.Value.(*ssa.Builtin)
+		return ok && b.Name() == "len" && call.Call.Args[0] == of
+	}
+	cntBlk := an.NewBlocker()
+	nCnt := 0
+	for _, t := range an.EqTests(pb, func(x, y ssa.Value) bool {
+		return isLenOf(x, pb.Params[1]) && strings.HasSuffix(an.Expr(y), ".expectedColumns")
+	}) {
+		cntBlk.AddEdge(t.If.Block(), t.Eq)
+		nCnt++
+		o.Site(t.If)
+	}
+	if nCnt == 0 {
+		o.Fail(p.Pos(pb.Pos()), "parseBinlogRow no longer rejects rows whose column count differs from the expected one (after a schema change values would be assigned to the wrong columns instead of the event being reported as undecodable)")
+	} else {
+		r := an.Reach(pb, nil, cntBlk)
+		an.Instrs(pb, func(i ssa.Instruction) {
+			if ia, ok := i.(*ssa.IndexAddr); ok && ia.X == ssa.Value(pb.Params[1]) && r[i] {
+				o.FailAt(i, "the binlog row is read although its column count differs from the expected one")
+			}
+		})
+	}
 }
